@@ -296,3 +296,23 @@ Proof.
   intros (Hs & i & b & Hl & Hwa & Hta & Hwr & Htr). cbn [replies]. rewrite Hl.
   rewrite <- app_assoc. apply dec_enc; assumption.
 Qed.
+
+(* any connection, any bytes: n dispatches run at most n handlers, each appended to the log
+   in order (nothing is removed or rewritten), whether or not the run ends in an error *)
+Theorem serve_handlers_bounded b32 bs pass n : forall inp out log,
+  exists l, snd (res_state (serve b32 bs pass n (inp, out, log))) = log ++ l /\ (length l <= n)%nat.
+Proof.
+  induction n as [|n IH]; intros inp out log.
+  - exists []. cbn. rewrite app_nil_r. split; [reflexivity|apply le_n].
+  - cbn [serve].
+    destruct (dispatch b32 bs pass (inp, out, log)) as [u [[inp' out'] log']|e [[inp' out'] log']] eqn:E.
+    + destruct u. apply dispatch_success_any_input in E.
+      destruct E as (s & inp1 & i & b & args & _ & _ & _ & -> & _). cbn [bind].
+      destruct (IH inp' out' (log ++ [{| k_idx := i; k_pass := pass; k_args := args |}])) as (l & -> & Hl).
+      exists ({| k_idx := i; k_pass := pass; k_args := args |} :: l). rewrite <- app_assoc. split; [reflexivity|].
+      cbn [length]. apply le_n_S, Hl.
+    + cbn [bind res_state snd].
+      apply dispatch_failure_is_silent in E. destruct E as [[-> _]|(i & b & args & -> & _)].
+      * exists []. rewrite app_nil_r. split; [reflexivity|apply Nat.le_0_l].
+      * eexists. split; [reflexivity|]. cbn [length]. apply le_n_S, Nat.le_0_l.
+Qed.
